@@ -481,7 +481,7 @@ fn network_cut(ds: &PartialDSet, d: usize, edge_mode: bool)
         let start = {
             let _ = start;
             let mut candidates: Vec<_> = marked.iter().cloned()
-                .filter(|&e| !marked.contains(&ds.op(0, e).unwrap()))
+                .filter(|&e| facing_sink.contains(&ds.op(0, e).unwrap()))
                 .collect();
             candidates.sort();
             candidates[crate::verif_hooks::choose(candidates.len())]
